@@ -1351,6 +1351,9 @@ class TACKExtension(TLSExtension):
         p.stopLengthCheck()
         self.activation_flags = p.get(1)
 
+        if p.getRemainingLength():
+            raise DecodeError("Extra data after extension payload")
+
         return self
 
 
